@@ -324,3 +324,98 @@ Example shared_ids_do_not_mix :
     let outs := recv_wire false 5000 0 fs_empty (wire_of sent [(0, 0); (1, 0); (1, 1); (0, 1)]%nat) in
     handed_to 1 outs = [stamp 1 fA] /\ handed_to 2 outs = [stamp 2 fB].
 Proof. eexists. split; [vm_compute; reflexivity|]. vm_compute. split; reflexivity. Qed.
+
+(* ---- isolation of the per-session queues ---------------------------------------------------------------------- *)
+
+Lemma alookup_ainsert_same' {V} k (v : V) m : alookup k (ainsert k v m) = Some v.
+Proof. apply alookup_ainsert_same. Qed.
+
+Lemma alookup_ainsert_other' {V} k k2 (v : V) m : k <> k2 -> alookup k2 (ainsert k v m) = alookup k2 m.
+Proof. intros H. apply alookup_ainsert_other. congruence. Qed.
+
+(* with try_send a step never gets stuck *)
+Lemma dstep_went cap q op : exists q' h, dstep false cap q op = Went q' h.
+Proof.
+  destruct op as [f|sid]; cbn [dstep].
+  - destruct (alookup (f_sid f) q) as [l|]; [|eauto]. destruct (Nat.ltb (length l) cap); eauto.
+  - destruct (alookup sid q) as [[|f l]|]; eauto.
+Qed.
+
+(* queues hold only frames of their own session (true of the empty queues, kept by every step) *)
+Definition own (q : queues) : Prop := forall sid l, alookup sid q = Some l -> Forall (fun f => f_sid f = sid) l.
+
+Lemma own_step waits cap q op q' h : own q -> dstep waits cap q op = Went q' h -> own q'.
+Proof.
+  intros Ho Hs sid l Hl. destruct op as [f|s]; cbn [dstep] in Hs.
+  - destruct (alookup (f_sid f) q) as [l0|] eqn:E; [|injection Hs as <- <-; eauto].
+    destruct (Nat.ltb (length l0) cap).
+    + injection Hs as <- <-. destruct (N.eq_dec (f_sid f) sid) as [<-|Hne].
+      * rewrite alookup_ainsert_same' in Hl. injection Hl as <-. apply Forall_app. split; [eauto|].
+        constructor; [reflexivity|constructor].
+      * rewrite alookup_ainsert_other' in Hl by exact Hne. eauto.
+    + destruct waits; [discriminate|]. injection Hs as <- <-. eauto.
+  - destruct (alookup s q) as [[|f l0]|] eqn:E; try (injection Hs as <- <-; eauto).
+    destruct (N.eq_dec s sid) as [<-|Hne].
+    + rewrite alookup_ainsert_same' in Hl. injection Hl as <-. specialize (Ho _ _ E). inversion Ho; assumption.
+    + rewrite alookup_ainsert_other' in Hl by exact Hne. eauto.
+Qed.
+
+Lemma dstep_other_own cap q op b q' h :
+  own q -> concerns b op = false -> dstep false cap q op = Went q' h ->
+  alookup b q' = alookup b q /\ filter (fun f => f_sid f =? b) h = [].
+Proof.
+  intros Ho Hc Hs. destruct op as [f|sid]; cbn [dstep concerns] in *; apply N.eqb_neq in Hc.
+  - destruct (alookup (f_sid f) q) as [l|]; [|injection Hs as <- <-; split; reflexivity].
+    destruct (Nat.ltb (length l) cap); injection Hs as <- <-; (split; [|reflexivity]); [|reflexivity].
+    apply alookup_ainsert_other'. exact Hc.
+  - destruct (alookup sid q) as [[|f l]|] eqn:E; injection Hs as <- <-; try (split; reflexivity).
+    split; [apply alookup_ainsert_other'; exact Hc|].
+    specialize (Ho _ _ E). inversion Ho as [|x l' Hx Hl']; subst. cbn [filter].
+    destruct (N.eqb_spec (f_sid f) b) as [Heq|_]; [congruence|reflexivity].
+Qed.
+
+(* a step that concerns b does to b's queue, and hands b, the same thing whatever the other queues hold *)
+Lemma dstep_same cap q1 q2 op b :
+  concerns b op = true -> alookup b q1 = alookup b q2 ->
+  exists q1' q2' h, dstep false cap q1 op = Went q1' h /\ dstep false cap q2 op = Went q2' h /\
+                    alookup b q1' = alookup b q2'.
+Proof.
+  intros Hc Hq. destruct op as [f|sid]; cbn [dstep concerns] in *; apply N.eqb_eq in Hc.
+  - rewrite Hc. rewrite <- Hq. destruct (alookup b q1) as [l|] eqn:E.
+    + destruct (Nat.ltb (length l) cap).
+      * exists (ainsert b (l ++ [f]) q1), (ainsert b (l ++ [f]) q2), []. repeat split.
+        rewrite !alookup_ainsert_same'. reflexivity.
+      * exists q1, q2, []. repeat split. congruence.
+    + exists q1, q2, []. repeat split. congruence.
+  - subst sid. rewrite <- Hq. destruct (alookup b q1) as [[|f l]|] eqn:E.
+    + exists q1, q2, []. repeat split. congruence.
+    + exists (ainsert b l q1), (ainsert b l q2), [f]. repeat split. rewrite !alookup_ainsert_same'. reflexivity.
+    + exists q1, q2, []. repeat split. congruence.
+Qed.
+
+(* Isolation under backpressure: what session b is handed depends only on the frames for b and on b's own pace -
+   not on what arrives for the other sessions nor on whether they ever take anything. *)
+Theorem demux_isolation cap b : forall ops q1 q2,
+  own q1 -> own q2 -> alookup b q1 = alookup b q2 ->
+  filter (fun f => f_sid f =? b) (drun false cap q1 ops) =
+  filter (fun f => f_sid f =? b) (drun false cap q2 (filter (concerns b) ops)).
+Proof.
+  induction ops as [|op ops IH]; intros q1 q2 Ho1 Ho2 Hq; [reflexivity|].
+  cbn [drun filter]. destruct (concerns b op) eqn:Hc.
+  - destruct (dstep_same cap q1 q2 op b Hc Hq) as (q1' & q2' & h & H1 & H2 & Hq').
+    cbn [drun]. rewrite H1, H2. rewrite !filter_app. f_equal.
+    apply IH; [exact (own_step false cap q1 op q1' h Ho1 H1)|exact (own_step false cap q2 op q2' h Ho2 H2)|exact Hq'].
+  - destruct (dstep_went cap q1 op) as (q1' & h & H1). rewrite H1.
+    destruct (dstep_other_own cap q1 op b q1' h Ho1 Hc H1) as [Hq1 Hh].
+    rewrite filter_app, Hh. cbn [app].
+    apply IH; [exact (own_step false cap q1 op q1' h Ho1 H1)|exact Ho2|congruence].
+Qed.
+
+(* the code before fix 6fd5f9f: session 1 never takes anything; once its queue is full the loop waits for it and session
+   2, whose queue is empty and whose relay is ready, is handed nothing *)
+Theorem waiting_demux_starves_neighbours :
+  let fr sid := mk_frame None sid [7] in
+  let ops := [Deliver (fr 1); Deliver (fr 1); Deliver (fr 1); Deliver (fr 2); Take 2; Deliver (fr 2); Take 2] in
+  drun true 2 [(1, []); (2, [])] ops = [] /\
+  drun false 2 [(1, []); (2, [])] ops = [fr 2; fr 2].
+Proof. split; vm_compute; reflexivity. Qed.
